@@ -322,9 +322,14 @@ def _apply_filter(block_type, filter, handler):
         return lambda cellgrid, *args, **kwargs: handler(cellgrid, *args, **kwargs) if filter(
             block_type, ""
         ) else None
+    def table_name(cellgrid):
+        name = cellgrid[0][0][2:]
+        # the transposed-table marker is not part of the name
+        return name[:-1] if name.endswith("*") else name
+
     return (
         lambda cellgrid, *args, **kwargs: handler(cellgrid, *args, **kwargs)
-        if filter(block_type, cellgrid[0][0][2:])
+        if filter(block_type, table_name(cellgrid))
         else None
     )
 
